@@ -411,3 +411,37 @@ def take_while_admits(R, F, it):
                 return None, "captured field %d is %r" % (i, x)
             sub[list(byname[nm].atoms())[0]] = x.poly()
     return (e - c + ONE).subst(sub), None
+
+
+def flat_field_types(F, adt, prefix="", path=(), depth=0):
+    """leaf fields of a crate struct, looking through fields that are themselves plain (non-generic) crate structs
+    (`span: RowSpan { x_left, x_right, y }`): [(dotted name, index path, type)]"""
+    out = []
+    a = F.adts.get(adt)
+    if a is None or a.get("kind") != "struct":
+        return out
+    for i, f in enumerate(a["variants"][0]["fields"]):
+        t = f["ty"]
+        sub = F.adts.get(t.get("def")) if t.get("k") == "adt" else None
+        if sub is not None and depth < 2 and sub.get("kind") == "struct" and sub["id"].startswith(F.crate + "::") and not t.get("args") \
+                and not (sub.get("generics") or {}).get("params"):
+            out.extend(flat_field_types(F, t["def"], prefix + f["name"] + ".", path + (i,), depth + 1))
+        else:
+            out.append((prefix + f["name"], path + (i,), t))
+    return out
+
+
+def flat_fields(ex, F, adt, v):
+    """{dotted name: value} of a struct value, nested plain crate structs flattened (symbols expanded on the way)"""
+    out = {}
+    for name, path, _t in flat_field_types(F, adt):
+        x = v
+        for i in path:
+            if isinstance(x, SymV):
+                x = ex.expand_sym(x)
+            if not isinstance(x, Agg) or i >= len(x.fields):
+                x = None
+                break
+            x = x.fields[i]
+        out[name] = x
+    return out
